@@ -8,7 +8,7 @@ use white_whale_std::vault_network::vault::{CallbackMsg, ExecuteMsg};
 
 use crate::{
     error::VaultError,
-    state::{CONFIG, LOAN_COUNTER},
+    state::{CONFIG, LOAN_COUNTER, SETTLED_LOAN_FEES},
 };
 
 pub fn flash_loan(
@@ -47,6 +47,10 @@ pub fn flash_loan(
             resp.balance
         }
     };
+
+    // fees of loans that already completed inside a loan that is still open are not part of this loan's baseline
+    let old_balance =
+        old_balance.checked_sub(SETTLED_LOAN_FEES.may_load(deps.storage)?.unwrap_or_default())?;
 
     let mut messages: Vec<CosmosMsg> = vec![];
 
